@@ -18,7 +18,7 @@ Local Open Scope Z_scope.
 Inductive src :=
 | SV (i : nat)    (* copy of the input vertex path[i] *)
 | SI (i : nat)    (* ip / ip2 computed by a GetIntersection call that returned true on the input segment path[i-1] .. path[i] *)
-| SX (i : nat)    (* ip2 left behind by the GetIntersection call whose result the code ignores, when that result was false *)
+| SX (i : nat)    (* legacy mode only: ip2 left behind by a second GetIntersection call that returned false *)
 | SC (k : nat).   (* rect_as_path_[k] (RectClip64 only) *)
 
 Definition tpt := (pt * src)%type.
@@ -46,6 +46,11 @@ Definition default_pt : pt := (0, 0).   (* Point64() *)
 
 Section Lines.
   Variable gsi : pt -> pt -> pt -> pt -> pt -> bool * pt.
+  (* legacy = true reproduces the code before /repo commit 4911de9 ("fix: RectClipLines no longer emits an unset
+     point ..."), which ignored the result of the second GetIntersection call of a pass-through and emitted ip2
+     anyway.  It exists only so that the check can recognise that defect (key lines.stale-ip2) should it come
+     back; the model of the current code, and everything the theorems are about, is legacy = false. *)
+  Variable legacy : bool.
   Variable r : rect.
   Variable path : list pt.
 
@@ -139,7 +144,9 @@ Section Lines.
               else if is_inside loc then lines_loop f i loc (add (ip, SI i) true rs)
               else if negb (is_inside prev) then
                 let '(ok2, _, ip2) := get_intersection_g gsi r prev_pt pi prev default_pt in
-                lines_loop f i loc (add (ip, SI i) false (add (ip2, if ok2 then SI i else SX i) true rs))
+                if ok2 then lines_loop f i loc (add (ip, SI i) false (add (ip2, SI i) true rs))
+                else if legacy then lines_loop f i loc (add (ip, SI i) false (add (ip2, SX i) true rs))
+                else lines_loop f i loc rs
               else lines_loop f i loc (add (ip, SI i) false rs)
             | _, _ => Err ErrOOB
             end
@@ -204,21 +211,26 @@ End Lines.
 Definition untag (l : list (list tpt)) : list (list pt) := map (map fst) l.
 
 (* RectClipLines(const Rect64&, const Paths64&) incl. the wrapper's early return; tagged points *)
-Fixpoint rect_clip_lines_paths_t (gsi : pt -> pt -> pt -> pt -> pt -> bool * pt) (r : rect) (ps : list (list pt))
+Fixpoint rect_clip_lines_paths_t (gsi : pt -> pt -> pt -> pt -> pt -> bool * pt) (legacy : bool) (r : rect) (ps : list (list pt))
   : res (list (list tpt)) :=
   match ps with
   | [] => Ok []
   | p :: t =>
-    match lines_one_t gsi r p with
+    match lines_one_t gsi legacy r p with
     | Err e => Err e
-    | Ok o => match rect_clip_lines_paths_t gsi r t with Err e => Err e | Ok o' => Ok (o ++ o') end
+    | Ok o => match rect_clip_lines_paths_t gsi legacy r t with Err e => Err e | Ok o' => Ok (o ++ o') end
     end
   end.
 
+(* one polyline, any intersection function, current code *)
 Definition rect_clip_lines_g (gsi : pt -> pt -> pt -> pt -> pt -> bool * pt) (r : rect) (p : list pt) : res (list (list tpt)) :=
-  if rect_is_empty r then Ok [] else lines_one_t gsi r p.
+  if rect_is_empty r then Ok [] else lines_one_t gsi false r p.
 
 Definition rect_clip_lines_t := rect_clip_lines_g get_segment_intersection.
+
+(* regression classifier only: the pre-fix behaviour, with the stale points tagged SX *)
+Definition rect_clip_lines_legacy_t (r : rect) (p : list pt) : res (list (list tpt)) :=
+  if rect_is_empty r then Ok [] else lines_one_t get_segment_intersection true r p.
 
 Definition res_default {A} (d : A) (x : res A) : A := match x with Ok a => a | Err _ => d end.
 
@@ -228,7 +240,7 @@ Definition rect_clip_lines (r : rect) (p : list pt) : list (list pt) :=
 
 Definition rect_clip_lines_paths (r : rect) (ps : list (list pt)) : res (list (list pt)) :=
   if rect_is_empty r then Ok []
-  else match rect_clip_lines_paths_t get_segment_intersection r ps with Err e => Err e | Ok o => Ok (untag o) end.
+  else match rect_clip_lines_paths_t get_segment_intersection false r ps with Err e => Err e | Ok o => Ok (untag o) end.
 
 (* sanity *)
 Example lines_ex1 :
